@@ -1,6 +1,284 @@
-import MitmVerif.Model.C01
+/-
+  C01 — HTTP/1 forwarding is framing-consistent: property theorems.
+  Model: MitmVerif/Model/C01.lean (mitmproxy's functions + `Ref`, the strict RFC 9112 reader used as SPEC).
+-/
+import MitmVerif.Lemmas.C01
 namespace MitmVerif.Props.C01
 open MitmVerif MitmVerif.C01
 
-theorem parseCL_zero : parseCL [48] = some 0 := by decide
+/-- what the proxy decides for the body (`expected_http_body_size`) -/
+def proxySize (kind : Kind) (reqMethod : Bytes) (fs : List Field) : Option BodySize :=
+  match kind with
+  | .request => sizeFromHeaders false fs
+  | .response st => responseBodySize reqMethod ⟨[], st, [], fs⟩
+
+/-- the proxy's framing decision and the reference reader's denote the same body delimitation -/
+def Agree : BodySize → Ref.Framing → Prop
+  | .len n, .cl m => n = m
+  | .len n, .none => n = 0
+  | .chunked, .chunked => True
+  | .untilEof, .eof => True
+  | _, _ => False
+
+private theorem valueOk_last : ∀ {v : Bytes}, valueOk v = true → v.getLast? ≠ some 10
+  | [], _ => by simp
+  | [c], h => by
+    simp only [valueOk] at h
+    intro hc; simp at hc; subst hc; simp at h
+  | c :: d :: rest, h => by
+    have : valueOk (d :: rest) = true := by
+      rw [valueOk] at h
+      by_cases h0 : c = 0
+      · simp [h0] at h
+      · by_cases h13 : c = 13
+        · simp [h13] at h; exact h.2
+        · by_cases h10 : c = 10
+          · simp [h10] at h; exact h.2
+          · simpa [h0, h13, h10] using h
+    have ih := valueOk_last this
+    simpa [List.getLast?_cons_cons] using ih
+
+private theorem dropFinalLF_id {v : Bytes} (h : v.getLast? ≠ some 10) : dropFinalLF v = v := by
+  unfold dropFinalLF
+  cases hl : v.getLast? with
+  | none => rfl
+  | some c =>
+    have : c ≠ 10 := fun e => h (by rw [hl, e])
+    simp [this]
+
+private theorem digit_not_ows (c : UInt8) (h : isDigit c = true) : (!isOws c) = true := by
+  have hh : ∀ n : Fin 256, isDigit (UInt8.ofNat n.val) = true → (!isOws (UInt8.ofNat n.val)) = true := by decide +kernel
+  have := hh ⟨c.toNat, UInt8.toNat_lt c⟩
+  simpa using this (by simpa using h)
+
+private theorem digit_ne_comma (c : UInt8) (h : isDigit c = true) : c ≠ 44 := by
+  intro e; subst e; revert h; decide
+
+/-- a value accepted by `parse_content_length` (without the `$` quirk) is 1*DIGIT and denotes the same number -/
+private theorem clDigits_spec {c : Bytes} {n : Nat} (h : clDigits c = some n) :
+    c ≠ [] ∧ c.all isDigit = true ∧ n = natOfDigits c := by
+  unfold clDigits at h
+  split at h
+  · simp at h
+  · simp at h; subst h; decide
+  · rename_i x rest _ _
+    split at h
+    · rename_i hc
+      simp at h hc
+      refine ⟨by simp, ?_, h.symm⟩
+      simp [hc.1.1]; exact hc.2
+    · simp at h
+
+private theorem cl_items_single {c : Bytes} (hne : c ≠ []) (hd : c.all isDigit = true) :
+    Ref.clItems [c] = [c] ∧ Ref.allDigits c = true := by
+  have hno : (44 : UInt8) ∉ c := by
+    intro hm
+    have := List.all_eq_true.mp hd 44 hm
+    exact digit_ne_comma 44 this rfl
+  have hs : stripBy isOws c = c := stripBy_all_false (by
+    apply List.all_eq_true.mpr
+    intro x hx
+    exact digit_not_ows x (List.all_eq_true.mp hd x hx))
+  constructor
+  · simp [Ref.clItems, splitOn_no_sep hno, hs]
+  · simp [Ref.allDigits, hd]; cases c <;> simp_all
+
+/-- what `validate_headers` guarantees, as a case split -/
+private theorem validate_cases {kind : Kind} {version reason : Bytes} {fs : List Field}
+    (hv : validateHeaders kind version reason fs = true) :
+    (∀ f ∈ fs, nameOk f.1 = true ∧ valueOk f.2 = true) ∧
+    ((∃ t cls w, getAll fs sTE = [t] ∧ getAll fs sCL = [] ∧ version = sHttp11 ∧ parseTE t = some (cls, w) ∧
+        (match kind with
+         | .request => cls = .chunkedFinal
+         | .response st => ¬((100 ≤ st ∧ st ≤ 199) ∨ st = 204))) ∨
+     (∃ c n, getAll fs sTE = [] ∧ getAll fs sCL = [c] ∧ parseCL c = some n) ∨
+     (getAll fs sTE = [] ∧ getAll fs sCL = [])) := by
+  unfold validateHeaders at hv
+  simp only [Bool.and_eq_true] at hv
+  obtain ⟨⟨_, hall⟩, hrest⟩ := hv
+  refine ⟨fun f hf => by simpa using List.all_eq_true.mp hall f hf, ?_⟩
+  generalize getAll fs sTE = te at hrest
+  generalize getAll fs sCL = cl at hrest
+  cases te with
+  | nil =>
+    cases cl with
+    | nil => exact Or.inr (Or.inr ⟨rfl, rfl⟩)
+    | cons c more =>
+      simp at hrest
+      obtain ⟨hm, hp⟩ := hrest
+      subst hm
+      obtain ⟨n, hn⟩ := Option.isSome_iff_exists.mp hp
+      exact Or.inr (Or.inl ⟨c, n, rfl, rfl, hn⟩)
+  | cons t more =>
+    cases cl with
+    | cons c cs => simp at hrest
+    | nil =>
+      simp at hrest
+      obtain ⟨⟨⟨hm, hver⟩, hk⟩, hp⟩ := hrest
+      subst hm
+      left
+      cases hpt : parseTE t with
+      | none => simp [hpt] at hp
+      | some r =>
+        obtain ⟨cls, w⟩ := r
+        refine ⟨t, cls, w, rfl, rfl, hver, hpt, ?_⟩
+        cases kind with
+        | request =>
+          cases cls with
+          | chunkedFinal => rfl
+          | other => simp [hpt] at hp
+        | response st =>
+          simp at hk
+          intro hh
+          rcases hh with ⟨h1, h2⟩ | h2
+          · omega
+          · exact hk.2 h2
+
+theorem getJoined_single {fs : List Field} {n v : Bytes} (h : getAll fs n = [v]) : getJoined fs n = some v := by
+  simp [getJoined, h, joinWith]
+
+theorem getJoined_none {fs : List Field} {n : Bytes} (h : getAll fs n = []) : getJoined fs n = none := by
+  simp [getJoined, h]
+
+private theorem parseTE_nonempty {t w : Bytes} {cls : TE} (h : parseTE t = some (cls, w)) : t ≠ [] := by
+  intro e; subst e
+  have : parseTE [] = none := by decide
+  rw [this] at h; simp at h
+
+private theorem codingsOf_single (t : Bytes) : Ref.codingsOf [t] = refCodingsOf t := by
+  simp [Ref.codingsOf, refCodingsOf]
+
+private theorem te_eval_chunked : ∀ w ∈ Gen.C01.teChunked,
+    (splitOn 44 w).getLast? = some sChunked ∧
+    Ref.teErrorC (splitOn 44 w) sHttp11 .request = none ∧
+    ∀ st, Ref.teErrorC (splitOn 44 w) sHttp11 (.response st) =
+      if (100 ≤ st && st ≤ 199) || st = 204 then some Ref.cTe1xx204 else none := by
+  intro w hw
+  simp [Gen.C01.teChunked] at hw
+  rcases hw with rfl | rfl | rfl | rfl <;>
+    refine ⟨by decide, by decide, fun st => ?_⟩ <;>
+    (unfold Ref.teErrorC; rw [if_neg (by decide), if_neg (by decide), if_neg (by decide)])
+
+private theorem te_eval_other : ∀ w ∈ Gen.C01.teOther,
+    (splitOn 44 w).getLast? ≠ some sChunked ∧
+    ∀ st, Ref.teErrorC (splitOn 44 w) sHttp11 (.response st) =
+      if (100 ≤ st && st ≤ 199) || st = 204 then some Ref.cTe1xx204 else none := by
+  intro w hw
+  simp [Gen.C01.teOther] at hw
+  rcases hw with rfl | rfl | rfl | rfl <;>
+    refine ⟨by decide, fun st => ?_⟩ <;>
+    (unfold Ref.teErrorC; rw [if_neg (by decide), if_neg (by decide), if_neg (by decide)])
+
+private theorem noBody_request (m : Bytes) : Ref.noBody .request m = false := rfl
+
+/-- **Framing agreement** (requests and responses): for every field list that `validate_headers` accepts, the strict
+    reference reader does not find the framing ambiguous, and it delimits the body exactly as
+    `expected_http_body_size` does.  `ambiguous_rejected` is the contrapositive. -/
+theorem framing_agrees (kind : Kind) (version reason reqMethod : Bytes) (fs : List Field)
+    (hv : validateHeaders kind version reason fs = true) :
+    ∃ sz fr, proxySize kind reqMethod fs = some sz ∧ Ref.framing fs version kind reqMethod = .ok fr ∧ Agree sz fr := by
+  obtain ⟨hall, hc⟩ := validate_cases hv
+  rcases hc with ⟨t, cls, w, hte, hcl, hver, hpt, hk⟩ | ⟨c, n, hte, hcl, hpc⟩ | ⟨hte, hcl⟩
+  · -- Transfer-Encoding only
+    obtain ⟨hcod, hmem⟩ := parseTE_codings hpt
+    have htne := parseTE_nonempty hpt
+    have hj := getJoined_single hte
+    subst hver
+    have hfr : ∀ k, Ref.framing fs sHttp11 k reqMethod =
+        match Ref.teErrorC (splitOn 44 w) sHttp11 k with
+        | some c => .error (.ambiguous c)
+        | none => if Ref.noBody k reqMethod then .ok .none
+                  else if (splitOn 44 w).getLast? = some sChunked then .ok .chunked else .ok .eof := by
+      intro k
+      have hcl0 : Ref.clError [] = none := by decide
+      unfold Ref.framing Ref.teError
+      simp only [hte, hcl, List.isEmpty_cons, List.isEmpty_nil, Bool.not_false, Bool.not_true, Bool.and_false,
+        Bool.false_eq_true, ↓reduceIte, codingsOf_single, hcod, hcl0]
+      rfl
+    rw [hfr]
+    cases kind with
+    | request =>
+      subst hk
+      rcases hmem with ⟨_, hm⟩ | ⟨h, _⟩
+      · obtain ⟨hl, he, _⟩ := te_eval_chunked w hm
+        refine ⟨.chunked, .chunked, ?_, ?_, trivial⟩
+        · simp [proxySize, sizeFromHeaders, hj, htne, hpt]
+        · simp [he, noBody_request, hl]
+      · cases h
+    | response st =>
+      have hst : ((100 ≤ st && st ≤ 199) || st = 204) = false := by
+        simp only [Bool.or_eq_false_iff, Bool.and_eq_false_iff]
+        constructor
+        · by_cases h1 : 100 ≤ st
+          · by_cases h2 : st ≤ 199
+            · exact absurd (Or.inl ⟨h1, h2⟩) hk
+            · right; simpa using h2
+          · left; simpa using h1
+        · simpa using fun h => hk (Or.inr h)
+      have hte_none : Ref.teErrorC (splitOn 44 w) sHttp11 (.response st) = none := by
+        rcases hmem with ⟨_, hm⟩ | ⟨_, hm⟩
+        · rw [(te_eval_chunked w hm).2.2 st, hst]; rfl
+        · rw [(te_eval_other w hm).2 st, hst]; rfl
+      simp only [hte_none]
+      by_cases hnb : Ref.noBody (.response st) reqMethod = true
+      · -- HEAD / 304 / CONNECT-2xx: both sides say "no body"
+        have hp : proxySize (.response st) reqMethod fs = some (.len 0) := by
+          simp only [Ref.noBody, Bool.or_eq_true, Bool.and_eq_true, decide_eq_true_eq, noBodyStatus] at hnb
+          simp only [proxySize, responseBodySize]
+          rcases hnb with (h | h) | h
+          · simp [h]
+          · split
+            · rfl
+            · split
+              · rfl
+              · split
+                · rfl
+                · rename_i h1 h2 h3
+                  exfalso
+                  rcases h with (h | h) | h
+                  · exact h2 (by simpa using h)
+                  · exact h3 (Or.inl (by simpa using h))
+                  · exact h3 (Or.inr (by simpa using h))
+          · split
+            · rfl
+            · split
+              · rfl
+              · split
+                · rfl
+                · simp [h.1.2, h.2, h.1.1]
+        exact ⟨.len 0, .none, hp, by simp [hnb], rfl⟩
+      · have hnb' : Ref.noBody (.response st) reqMethod = false := by simpa using hnb
+        have hshort : proxySize (.response st) reqMethod fs = sizeFromHeaders true fs := by
+          simp only [Ref.noBody, noBodyStatus, Bool.or_eq_false_iff, Bool.and_eq_false_iff, decide_eq_false_iff_not] at hnb'
+          obtain ⟨⟨h1, h2⟩, h3⟩ := hnb'
+          simp only [proxySize, responseBodySize]
+          rw [if_neg h1]
+          have h2a : ¬(100 ≤ st ∧ st ≤ 199) := by
+            intro hh; have := h2.1.1; simp [hh.1, hh.2] at this
+          have h2b : ¬(st = 204 ∨ st = 304) := by
+            intro hh; rcases hh with hh | hh
+            · exact h2.1.2 hh
+            · exact h2.2 hh
+          rw [if_neg h2a, if_neg h2b]
+          split
+          · rename_i hh
+            exfalso
+            rcases h3 with (h3 | h3) | h3
+            · exact h3 hh.2.2
+            · omega
+            · omega
+          · rfl
+        rcases hmem with ⟨hc, hm⟩ | ⟨hc, hm⟩
+        · subst hc
+          refine ⟨.chunked, .chunked, ?_, ?_, trivial⟩
+          · rw [hshort]; simp [sizeFromHeaders, hj, htne, hpt]
+          · simp [hnb', (te_eval_chunked w hm).1]
+        · subst hc
+          refine ⟨.untilEof, .eof, ?_, ?_, trivial⟩
+          · rw [hshort]; simp [sizeFromHeaders, hj, htne, hpt]
+          · simp [hnb', (te_eval_other w hm).1]
+  · -- Content-Length only
+    sorry
+  · sorry
+
 end MitmVerif.Props.C01
